@@ -255,3 +255,21 @@ _ADDENDA = {
 }
 for _k, _v in _ADDENDA.items():
     CLAIMS[_k]["text"] = CLAIMS[_k]["text"].rstrip() + _v
+
+# rules added in round 4 of the seeded changes
+_ADDENDA4 = {
+    "C01": " (T3', shortcut) the coefficient-0 shortcut for a trace, sqrt(d) * vec[0], is taken only under the flag is_orthonormal_hermitian_0thprop_identity.",
+    "C03": " (I8) option wiring: where a conversion hands its own parameters on by keyword, no parameter is handed to the slot of another of its parameters that the callee also has.",
+    "C06": " (O4, weights) the probabilities returned for one branch of an ensemble are the branch weight times the conditional probabilities, renormalised before the weight is applied.",
+    "C07": " (E1) qutrit-to-qubit embedding: the coefficient of the identity padded onto the extra level is 0 for a state, 1/N over the N POVM elements and 1/sqrt(N) over ALL N Kraus operators of a gate / measurement process.",
+    "C08": " (M6) the measurement-process model repeats the process model on the block diagonal (block_diag / kron(I, c)), m - 1 or m times.",
+    "C10": " (P7) the equality projections the estimators iterate with carry the constants their parametrisation implies (rule S4 of C04 re-run).",
+    "C11": " (A8) loss expressions built schedule by schedule reset the per-schedule partial sum for every schedule.",
+    "C12": " (W8) no loop in the loss functions reads a variable that only an earlier loop binds.",
+    "C15": " (H9) checks and simulations that compute one value per sample size / repetition collect it inside the loop that computes it.",
+    "C17": " (Y10) the state-name guard accepts exactly the catalogue (constant evaluation on every catalogued name and on uncatalogued probes built from catalogued parts).",
+    "C18": " (Q6) calc_h_mat normalises the Hamiltonian coefficients by 2d for every dimension d.",
+    "C20": " (V7) an accepted schedule is executed with the objects it names: object lists are indexed by the index read from the schedule item of that kind (rule M3 of C08 re-run).",
+}
+for _k, _v in _ADDENDA4.items():
+    CLAIMS[_k]["text"] = CLAIMS[_k]["text"].rstrip() + _v
